@@ -107,4 +107,20 @@ PROPS = {
         "trusted_base": ["hand transcription of pub/base_actor.go, handlers.go, side_effect_actor.go (tied by trace replay each run)", "the 9 accepted media types are re-derived in the model exactly as pub/util.go's init() builds them"],
         "assumptions": ["the request-body hooks are not side-effect callbacks in the sense of the statement (they run after authentication and before the block check)"],
     },
+    "C10": {
+        "level": "proof",
+        "lean_modules": ["AV.Props.C10"],
+        "support_modules": ["AV.Core.Prog", "AV.Spec.Monitors", "AV.Lemmas.LockRules", "AV.Lemmas.LockOps", "AV.Lemmas.LockProofs", "AV.Pub.BaseActor"],
+        "theorems": [
+            "AV.Props.C10.clean_of_oc", "AV.Props.C10.quiet_keeps", "AV.Props.C10.oc_respond", "AV.Props.C10.oc_authorize",
+            "AV.Props.C10.getOutbox", "AV.Props.C10.getInbox", "AV.Props.C10.handler", "AV.Props.C10.postInbox", "AV.Props.C10.postOutbox",
+        ],
+        "translator_scope": [r"gen_lean", r"T2 failed"],
+        "runners": [{"args": ["pub-C10", "960", "8", "gate,ids,inbox,outbox,get,missing"], "timeout": 1500}],
+        "exhaustive": {"quick": False, "thorough": False},
+        "rule": "C07's request product, bodies whose id is absent / null / empty / a number / an object / a relative reference / an absolute IRI, and side-effect scenarios with single faults; a counting ResponseWriter records every status, the header snapshot at WriteHeader and every body write "
+                "(so 'nothing written' and an implicit 200 are told apart); each trace is replayed against the model and judged by the once-monitor and the status table; non-trivial = conclusive replay; distinct by scenario hash",
+        "trusted_base": ["hand transcription (tied by trace replay each run)", "fake Authenticate hooks write their own 401 when they refuse, as the interface documentation demands"],
+        "assumptions": ["an error returned because the body Write itself failed or was short is not counted as 'written and failed' (the status has necessarily gone out)"],
+    },
 }
